@@ -34,7 +34,8 @@ func AddMacro(macro string, expanded string) map[string]string {
 
 // ExpandMacro expands the macros in a given query, if there are any.
 // It uses a lookahead regular expression to ignore the occurences
-// of the macro inside the string literals.
+// of the macro inside the string literals. Only the standalone
+// occurences of a macro name are expanded.
 func ExpandMacros(query string) (string, error) {
 	var err error
 
@@ -53,7 +54,9 @@ func ExpandMacros(query string) (string, error) {
 	})
 
 	for _, pair := range slice {
-		regex := regexp2.MustCompile(fmt.Sprintf(`(%s)(?=(?:[^"]|"[^"]*")*$)`, pair.Macro), regexp2.None)
+		// A macro is a standalone identifier: it's neither a part of a longer
+		// identifier nor a segment of a dotted path (e.g. `httpVersion`, `request.http`).
+		regex := regexp2.MustCompile(fmt.Sprintf(`(?<![\w.])(%s)(?![\w.])(?=(?:[^"]|"[^"]*")*$)`, pair.Macro), regexp2.None)
 		query, err = regex.Replace(query, pair.Expanded, -1, -1)
 		if err != nil {
 			return query, err
